@@ -72,6 +72,11 @@ CHECKS = {
             "Every value of the bounded family is created by real cold pytest processes under several hash seeds and formatter configurations; texts must be identical across seeds, orders and methods, ASTs identical across formatters.",
             "8-12 element alphabet, sets up to size 3/4; seeds 0..5 (quick) / 0..31 (thorough); black absence simulated by a project-local black.py raising ImportError.",
             "DESIGN.md 5/C16"),
+    "C18": ("exploration",
+            "bounded-exhaustive enumeration of 'something went wrong earlier' program shapes (and pairs of them) x all 16 approved sets in both drivers; oracle: the finish phase returns without internal error and the files parse",
+            "Every shape of a catalogue of misbehaving-but-documented test bodies is run under every approved set through Example.run_inline and under a slice through real pytest sessions; any exception escaping the finish phase, INTERNALERROR or unparsable result is a violation.",
+            "63 shapes in mc/checks/c18.py (failing/raising tests, never-compared snapshots, inner snapshots under replaced/deleted/aligned parents, raising comparisons, container-end layouts); `in`/[k] only on list/dict displays.",
+            "DESIGN.md 5/C18"),
 }
 
 NOT_APPLICABLE = {
